@@ -1,4 +1,5 @@
 import Mastverif.Model.Heap
+import Mastverif.Model.Tree
 /-!
 # M3b — the mutation paths at the level of node *objects*
 
@@ -653,6 +654,53 @@ def iterAll (E : Env) : Nat → HLink → M Unit
 /-- lift a monadic operation that returns the new tree record -/
 def runOp (x : M PTree) (s : PS) (t : PTree) : PS × PTree × Outcome :=
   afterCommit x s t
+
+/-! ## abstraction to the functional tree model -/
+
+/-- the row (`Model/Tree.lean`) of a node given the rows of its children -/
+def mkRow : List (Bool × T) → List Nat → List Nat → T
+  | [], _, _ => T.nil
+  | [(p, c)], _, _ => T.last p c
+  | (p, c) :: ls, k :: ks, v :: vs => T.cons p c k v (mkRow ls ks vs)
+  | (p, c) :: _, _, _ => T.last p c
+
+def seqO {α : Type} : List (Option α) → Option (List α)
+  | [] => some []
+  | none :: _ => none
+  | some x :: xs => (seqO xs).map (x :: ·)
+
+/-- the functional subtree below a link (flag: the link is a name), reading at most `fuel` levels;
+    names are expanded from the table of stored contents -/
+def absLink (h : Heap) (st : List SNode) : Nat → HLink → Option (Bool × T)
+  | _, .nil => some (false, T.nil)
+  | 0, _ => none
+  | f+1, .ptr a =>
+    match h[a]? with
+    | none => none
+    | some nd => (seqO (nd.links.map (absLink h st f))).map fun cs => (false, mkRow cs nd.keys nd.vals)
+  | f+1, .ref n =>
+    match (if n = 0 then none else st[n - 1]?) with
+    | none => none
+    | some sn =>
+      let links := if sn.links.isEmpty then List.replicate (sn.keys.length + 1) HLink.nil else sn.links
+      (seqO (links.map (absLink h st f))).map fun cs => (true, mkRow cs sn.keys sn.vals)
+
+/-- flags on absent links carry no information -/
+def normFlags : T → T
+  | .nil => .nil
+  | .last p c => .last (p && !c.isNil) (normFlags c)
+  | .cons p c k v r => .cons (p && !c.isNil) (normFlags c) k v (normFlags r)
+
+/-- the `Tree` record (functional model) that a `PTree` denotes -/
+def absTree (s : PS) (fuel : Nat) (t : PTree) : Option Tree :=
+  match absLink s.heap s.store fuel t.root with
+  | none => none
+  | some (p, r) =>
+    let dirty := match t.root with
+      | .ptr a => (s.heap[a]?.map (·.dirty)).getD false
+      | _ => false
+    some { root := T.unmk r, rootP := p, dirty := dirty, size := t.size, height := t.height, bf := t.bf,
+           growAfter := t.growAfter, shrinkBelow := t.shrinkBelow }
 
 /-! ## a system of trees over one heap, store and cache -/
 
